@@ -222,27 +222,29 @@ impl SourceView {
     pub fn get_line_slice(&self, line: u32, col: u32, span: u32) -> Option<&str> {
         self.get_line(line).and_then(|line| {
             // `col + span` must not overflow `u32`
-            let end = u64::from(col) + u64::from(span);
+            let start = u64::from(col);
+            let end = start + u64::from(span);
+            // byte range of the slice within the line
             let mut off = 0;
+            let mut off_end = 0;
+            // UTF-16 offset of the character being looked at
             let mut idx = 0u64;
-            let mut char_iter = line.chars().peekable();
 
-            while let Some(&c) = char_iter.peek() {
-                if idx >= u64::from(col) {
-                    break;
-                }
-                char_iter.next();
-                off += c.len_utf8();
-                idx += c.len_utf16() as u64;
-            }
-
-            let mut off_end = off;
-            for c in char_iter {
+            for c in line.chars() {
                 if idx >= end {
                     break;
                 }
-                off_end += c.len_utf8();
-                idx += c.len_utf16() as u64;
+                let next = idx + c.len_utf16() as u64;
+                if next <= start {
+                    // entirely before the slice
+                    off += c.len_utf8();
+                    off_end = off;
+                } else if span > 0 {
+                    // covers at least one of the requested code units; a surrogate pair is
+                    // taken whole even if the slice starts or ends in its middle
+                    off_end += c.len_utf8();
+                }
+                idx = next;
             }
 
             if idx < end {
